@@ -4,103 +4,82 @@ empty is not claimed."""
 PROPS = {
     "C01": dict(
         rules=["R-CALC", "R-SLOT", "R-ORDER", "R-REACH", "R-PROV", "R-ENTRY", "R-LISTAPI", "R-ID", "R-SNAP", "R-CHAIN", "R-SUMMARY", "R-WRITE", "R-NOOP", "R-OBJID"],
-        decided="necessary conditions for incremental = from-scratch: rule/slot tables, def-before-use in the "
-                "schedule, class-level reachability for link edits, value-level provenance completeness for numeric "
-                "edits, single entry point for edits, no inherited list mutator, injective dedup ids, snapshot order",
+        decided="necessary conditions for incremental = from-scratch: rule/slot tables, def-before-use in the schedule, class-level reachability for link edits, value-level provenance completeness (per branch) for numeric edits, ordering guards of the three chain builders, single entry point for edits, no inherited list mutator, no-op skip only on equality, injective ids (values and objects), operator summaries valid on every path, snapshot order of the before/after totals",
         not_decided="the numeric equality edited-vs-rebuilt; instance-level reachability through pre-change links"),
     "C02": dict(
         rules=["R-AGG", "R-DEG", "R-ACCUM", "R-LEAK"],
-        decided="structure of the aggregation: the four category dicts agree on keys, collections, attributes and "
-                "deduplication; every footprint-bearing class is covered; footprint = energy x intensity (degree rows)",
+        decided="structure of the aggregation: the four category dicts agree on keys, collections, attributes and deduplication; every footprint-bearing class is covered; footprint = energy x intensity (degree rows); accumulator discipline and no loop variable read after its loop in model code",
         not_decided="finiteness and sign of the values"),
     "C03": dict(
         rules=["R-SHIFT", "R-FILL", "R-PERUP", "R-DEG", "R-DELAY", "R-ACCUM"],
-        decided="index shift (freq=) not positional shift, zero-fill on series addition/multiplication, per-pattern "
-                "writer/reader collection agreement, linearity of load quantities in the traffic series",
+        decided="index shift (freq=) not positional shift, zero-fill on series addition/multiplication, per-pattern writer/reader collection agreement, linearity of load quantities in the traffic series, delay increased after a step's jobs are placed, accumulators only added to (never overwritten, compounded or scaled inside the loop)",
         not_decided="the conservation identities themselves (floor/ceil hour arithmetic, totals)"),
     "C04": dict(
         rules=["R-RAW2", "R-BOUND", "R-CUMUL"],
-        decided="two-series raw array operations are aligned and unit-fixed; order-domain bounds nb >= raw, "
-                "active <= nb; the fixed instance count is compared against the need before it is used",
+        decided="two-series raw array operations are aligned and unit-fixed (no positional arithmetic between two series); order-domain bounds nb >= raw, active <= nb; a fixed instance count is compared with the peak need before use; cumulative storage = running sum with the base need added first, checked before it is installed",
         not_decided="every >= inequality numerically; float cancellation in the storage negativity check"),
     "C05": dict(
         rules=["R-TXN:sim", "R-MIRROR", "R-ZIP", "R-WRITE", "R-REPLACE-SYM", "R-EDGE", "R-ATTACH"],
-        decided="exceptional exits of a simulation restore what was replaced; set/reset are mirror images; "
-                "baseline/simulated lists are built in lockstep; rules write only their own attribute",
+        decided="exceptional exits of a simulation restore what was replaced; set/reset are mirror images; baseline/simulated lists are built in lockstep; the replace primitive has a symmetric precondition and detaches before it attaches; child registration is unconditional; rules write only their own attribute",
         not_decided="identity of every object after arbitrary toggle sequences"),
     "C06": dict(
         rules=["R-ZIP", "R-TXN:date", "R-SIMDATE", "R-LOCAL", "R-TZREPLACE"],
-        decided="twin pairing lists are built in lockstep; the naive-date and outside-period rejections precede "
-                "any mutation (or are rolled back)",
+        decided="twin pairing lists are built in lockstep and every pair is linked; rejections (naive date, outside period) precede any mutation; the filter keeps hours >= the date; naive local-time indexes are localised with the pattern's zone; no aware date is re-labelled with .replace(tzinfo=)",
         not_decided="equality with the really-updated model; 'no hour before the date'"),
     "C07": dict(
         rules=["R-OPREC", "R-OPPAR", "R-INPLACE", "R-LABEL", "R-SUMMARY", "R-PAREN", "R-VALUESTORE", "R-WRITE", "R-PARENT-USED"],
-        decided="recorded operator and operand order = computed ones; parents recorded; no unrecorded in-place "
-                "numeric change; every assigned result labelled",
+        decided="recorded operator and operand order = computed ones; parents recorded on every return path; each recorded parent is used by the value; no unrecorded in-place numeric change and no store into .value from outside; every assigned result labelled; explain() parenthesises wherever precedence requires it",
         not_decided="numeric re-evaluation of each node"),
     "C08": dict(
         rules=["R-PROV", "R-EDGE", "R-ID", "R-ACYC", "R-SUMMARY", "R-CHAIN", "R-ATTACH"],
-        decided="completeness (every dependency is a transitive recorded ancestor), both-ends bookkeeping has single "
-                "writers and paired loops, dedup ids injective, attribute graph acyclic at class level",
+        decided="completeness (every dependency is a transitive recorded ancestor, per branch), both-ends bookkeeping has single writers, paired unconditional loops and detach-before-attach, dedup ids injective, attribute graph acyclic at class level, ordering guards of attr_updates_chain and of the de-duplications (keep last)",
         not_decided="correctness of attr_updates_chain on arbitrary graphs"),
     "C09": dict(
         rules=["R-COMM", "R-FILL", "R-PURE", "R-RAW2", "R-OPREC", "R-UNITS", "R-DERIVED"],
-        decided="operand-kind dispatch symmetry of + and *, zero-fill, operators do not mutate operands, raw "
-                "two-series operations aligned and unit-fixed",
+        decided="operand-kind dispatch symmetry of + and *, empty neutral/absorbing, zero-fill, operators do not mutate operands, no positional arithmetic between two series, custom resource units keep their own dimension, derived accessors (unit) are never cached",
         not_decided="the algebraic laws over values (pint/pandas, trusted)"),
     "C10": dict(
         rules=["R-MAG", "R-SUMMARY", "R-DERIVED"],
-        decided="every bare-number extraction from a unit-carrying value happens in a statically fixed unit or a "
-                "scale-invariant context",
+        decided="every bare-number extraction from a unit-carrying value happens in a statically fixed unit or a scale-invariant context; ceil/round call sites have a fixed unit; to() converts on every path; unit accessors are not cached",
         not_decided="nothing beyond pint's own correctness"),
     "C11": dict(
         rules=["R-LOCAL", "R-TZREPLACE", "R-VALUESTORE"],
-        decided="only the UTC converter (and the simulation filter, which localises explicitly) reads the local-time "
-                "series; every other rule reads the UTC attribute",
+        decided="only the UTC converter (and the simulation filter, which localises explicitly) reads the local-time series; the converter localises with the pattern's zone, keeps skipped hours, sums duplicated ones, and every return path goes through the per-timestamp conversion; nothing rewrites the converted series afterwards",
         not_decided="totals, DST merging, offsets (pandas/pytz runtime semantics)"),
     "C12": dict(
         rules=["R-DEG", "R-LEAK", "R-PROV"],
-        decided="homogeneity degree of each footprint formula in each documented driver, and independence rows",
+        decided="homogeneity degree of each footprint formula in each documented driver, independence rows, no loop variable read after its loop, and provenance completeness so that a live edit of a driver reaches the footprints",
         not_decided="floating-point exactness of k*x"),
     "C13": dict(
         rules=["R-JSON-KEYS", "R-JSON-KINDS", "R-JSON-UPG", "R-JSON-CLS", "R-JSON-ID", "R-JSON-LOAD", "R-JSON-SIB"],
-        decided="writer/reader key agreement, to_json dispatch covers every attribute kind, upgrade-handler table "
-                "total, class table covers the reachable classes",
+        decided="writer/reader key and kind agreement, to_json dispatch covers every attribute kind, sibling to_json signatures agree, scalar values written without rounding and hourly ones with 3 decimals, loader converts unconditionally and after the version upgrade, ids preserved, upgrade-handler table total, class table covers reachable classes",
         not_decided="numeric equality after reload, byte-equality of re-export, liveness of the loaded system"),
     "C14": dict(
         rules=["R-TXN:val", "R-VAL-FORMS", "R-VAL-SIB", "R-VAL-DEF", "R-VAL-AUTH", "R-ENTRY"],
-        decided="validation precedes mutation or is rolled back; validator dispatch covers every annotation form; "
-                "both entry paths call both validators; defaults table covers quantity parameters; __setattr__ "
-                "overrides delegate",
+        decided="validation precedes mutation or is rolled back; validator dispatch covers every annotation form; the three allowed-values refusals raise; both entry paths call both validators; defaults table covers quantity parameters; __setattr__ overrides delegate",
         not_decided="nothing stated as undecided; the checks are structural"),
     "C15": dict(
         rules=["R-TXN:recompute", "R-EDGE", "R-RULE-TXN"],
-        decided="an exception leaving the recompute loop restores every value already replaced",
+        decided="an exception leaving the recompute loop restores every value already replaced (the handler sees partial progress); a raising rule raises before it assigns; re-attachment registers children unconditionally",
         not_decided="behaviour of arbitrary later histories"),
     "C16": dict(
         rules=["R-LISTAPI", "R-LISTPAIR", "R-LISTSIB", "R-LIVE", "R-REV", "R-EDGE", "R-GUARD", "R-NOOP", "R-OBJID", "R-ATTACH"],
-        decided="list-API exhaustiveness, attach/detach pairing per mutator, shadow-copy/real-op agreement, receiver "
-                "typestate after a mutator, reverse look-ups derived not stored, single writers of link bookkeeping, "
-                "delete guard and system exclusivity ordering",
+        decided="list-API exhaustiveness, attach/detach pairing per mutator, shadow-copy/real-op agreement, receiver typestate after a mutator, reverse look-ups derived not stored, single append-only writers of link bookkeeping, no-op skip only on equality, unique object ids, delete guard and one-system check ordering and reachability from the edit path",
         not_decided="list-content equivalence with Python lists for every operation sequence"),
     "C17": dict(
         rules=["R-CALC", "R-PROV", "R-ORDER", "R-PLACEHOLDER", "R-SIB-JOB", "R-SERV", "R-DEG", "R-REACH", "R-PARENT-USED"],
-        decided="builder rule tables, provenance and schedule; constant placeholders are calculated; Job/ServiceJob "
-                "agree; server accounts for services; the two stated builder formulas have the stated shape",
+        decided="builder rule tables, provenance (per branch) and schedule; constant placeholders are calculated; each recorded parent of a looked-up value is used by the lookup; Job/ServiceJob agree; server accounts for services; the two stated builder formulas have the stated shape",
         not_decided="numeric equality builder-model vs plain-model"),
     "C18": dict(
         rules=["R-ORDER", "R-WRITE", "R-ACYC", "R-INPLACE", "R-PUREVIEW", "R-VALUESTORE", "R-CHAIN"],
-        decided="def-before-use in the canonical schedule, rules write only their own attribute, acyclicity, no "
-                "value-changing in-place call on model state, read-only views",
+        decided="def-before-use in the canonical schedule (and its reordering guards), rules write only their own attribute, acyclicity, no value-changing in-place call on model state, no store into .value from outside, read-only views",
         not_decided="determinism of pint/pandas (trusted)"),
     "C19": dict(
         rules=["R-SEL", "R-IDFLOW", "R-LEAK", "R-ACCUM", "R-OBJID"],
-        decided="positional selection from hash-ordered collections only at proven-singleton sites; identity never "
-                "flows into values",
+        decided="positional selection from hash-ordered collections only at proven-singleton sites; identity never flows into values; object ids unique per object; no loop variable read after its loop and no order-dependent accumulation (scaling inside a loop) over set-ordered collections",
         not_decided="last-ulp effects of summation order over set-ordered collections (listed, not alarmed)"),
     "C20": dict(
         rules=["R-THREAD"],
-        decided="every builder threads start_date, pint_unit and its value source into the frame it returns; every "
-                "date_range is hourly",
+        decided="every builder threads start_date, pint_unit and its value parameters into the frame it returns; every date_range starts at start_date and is hourly; what decides an hour is read from its timestamp, not its position",
         not_decided="calendar logic, lengths, leap years (pandas date_range semantics)"),
 }
